@@ -39,7 +39,7 @@ REVIEWED = [
     (r'^bencode::validate$', r'^overflow:Sub\(<impl \[T\]>::len\(bytes\), pos\)$', 'pos <= bytes.len(): pos only advances past bytes obtained by get(pos) or by a length already checked against the remainder'),
     (r'^bencode::validate$', r'^overflow:Add\(pos, len\)$', 'len <= bytes.len() - pos was checked on the line above'),
     # bounds
-    (r'^bucket::Bucket::add_node$', r'^bounds\(index=(Iterator>::position|<T>::or(_else)?\(Iterator>::position)', 'index returned by position() over the same 8-slot array (C08 victim rule)'),
+    (r'^bucket::Bucket::add_node$', r'^bounds\(index=(phi\()?(Iterator>::position|<T>::or(_else)?\(Iterator>::position)[^|]*(\|Iterator>::position[^|]*)*\)?', 'index returned by position() over the same 8-slot array (C08 victim rule)'),
     (r'^info_hash::InfoHash::from_ip$', r'^bounds\(index=Range<A>>::next', 'i < num_octets <= 8 = length of both arrays'),
     (r'^info_hash::InfoHash::from_ip$', r'^(IndexMut::index_mut\(repeat, (RangeTo\{[48]\}|Range\{3, 19\})\)|Index::index\(Ipv[46]Addr::octets\(ip\.0\), RangeTo\{[48]\}\)|Index::index\(agg, Range\{0, agg\}\)|<impl \[T\]>::copy_from_slice\()', 'constant ranges ..4 / ..8 / 3..19 / 0..num_octets within arrays of 4, 8, 16, 20 bytes; both sides of copy_from_slice have the same constant length'),
     (r'^info_hash::InfoHash::from_ip$', r'^overflow:Sh[lr]\(', 'constant shift amounts below the operand width'),
@@ -62,7 +62,7 @@ REVIEWED = [
     (r'^table::next_bucket_index$', r'^overflow:(Sub\((start_index, curr_index|curr_index, start_index)\)|Add\(SubWithOverflow\(start_index, curr_index\), 1\))$', 'inside the Ordering::Less / Greater arm of curr_index.cmp(start_index); indices < 160'),
     (r'^storage::AnnounceStorage::remove_expired_items$', r'^<T, A>::drain\(self\.expires, Range\{0, Iterator::count\(Iterator::take_while', '0..n with n = count of a take_while over the same vector (C07 expiry rule)'),
     (r'^transaction::generate_(aids|mids)$', r'^bounds\(index=Iterator>::next', 'enumerate() over a range of PREALLOC_LEN values into an array of PREALLOC_LEN'),
-    (r'^transaction::generate_(aids|mids)$', r'^overflow:Add\(next_alloc, transaction::(ACTION|MESSAGE)_ID_PREALLOC_LEN\)$', 'next_alloc <= MAX_*_ID (2^40 / 2^24) because the block length divides the id space (C19)'),
+    (r'^transaction::generate_(aids|mids)$', r'^overflow:Add\((next_alloc|phi\(0\|next_alloc\)), transaction::(ACTION|MESSAGE)_ID_PREALLOC_LEN\)$', 'next_alloc <= MAX_*_ID (2^40 / 2^24) because the block length divides the id space (C19)'),
     # unwraps with invariants
     (r'^handler::DhtHandler::run_once::\{closure#0\}$', r'^<T>::unwrap\(Future>::poll\(', 'timer.next() under the branch precondition !timer.is_empty(): the stream yields None only when it is empty'),
     (r'^action::lookup::TableLookup::recv_finished::\{closure#0\}$', r'^<T>::unwrap\(<K, V, S, A>::get\(param\.self\.announce_tokens\)\)$', 'the loop is filtered by announce_tokens.contains_key(node) (C03 announce rule)'),
